@@ -195,9 +195,10 @@ def unquote (t : List Nat) : Option (List Nat) :=
   match t with
   | [] => none
   | q :: rest =>
-    if q ≠ 0x22 then none else
-    match rest.reverse with
-    | [] => none
-    | q2 :: revBody => if q2 ≠ 0x22 then none else unquoteBody revBody.reverse
+    if q = 0x22 then
+      match rest.reverse with
+      | [] => none
+      | q2 :: revBody => if q2 = 0x22 then unquoteBody revBody.reverse else none
+    else none
 
 end Avo.Quote
